@@ -511,6 +511,14 @@ func (w *world) scan(cache *core.Cache) (*core.Snapshot, *core.Cache, error) {
 }
 
 func (w *world) scanWith(baseline *core.Snapshot, recheck map[string]bool, cache *core.Cache, ic ignore.IgnoreCache, slm core.SymbolicLinkMode) (*core.Snapshot, *core.Cache, error) {
+	s, c, _, err := w.scanFull(baseline, recheck, cache, ic, slm)
+	return s, c, err
+}
+
+// scanFull additionally returns the new ignore cache, so that scans can be
+// chained the way the local endpoint chains them (cache and ignore cache of
+// one scan are the inputs of the next).
+func (w *world) scanFull(baseline *core.Snapshot, recheck map[string]bool, cache *core.Cache, ic ignore.IgnoreCache, slm core.SymbolicLinkMode) (*core.Snapshot, *core.Cache, ignore.IgnoreCache, error) {
 	// A cold scan is requested by passing caches whose only entry can never be
 	// looked up (no path contains a NUL byte). Semantically this is the nil
 	// cache; it only keeps core.Scan from allocating 1024-slot maps per call,
@@ -521,7 +529,7 @@ func (w *world) scanWith(baseline *core.Snapshot, recheck map[string]bool, cache
 	if ic == nil {
 		ic = ignore.IgnoreCache{ignore.IgnoreCacheKey{Path: "\x00cold"}: ignore.IgnoreCacheValue{}}
 	}
-	s, c, _, err := core.Scan(
+	return core.Scan(
 		context.Background(),
 		w.root,
 		baseline, recheck,
@@ -531,7 +539,6 @@ func (w *world) scanWith(baseline *core.Snapshot, recheck map[string]bool, cache
 		slm,
 		core.PermissionsMode_PermissionsModePortable,
 	)
-	return s, c, err
 }
 
 // transition calls core.Transition with the argument shape of the local endpoint.
